@@ -3,6 +3,7 @@ import A2Verif.Lemmas.PackText
 import A2Verif.Lemmas.PackJson
 import A2Verif.Lemmas.PackPascalPack
 import A2Verif.Lemmas.PackRecMain
+import A2Verif.Lemmas.PackReuse
 /-!
 # C13 — file packing encodings are exact inverse pairs
 
@@ -1044,5 +1045,287 @@ theorem records_straddle_instance :
     (packRec .prodos (newFimg .prodos 512 []) 300 [(1, List.replicate 249 0x41 ++ [0x0a]), (2, strBytes "NEXT\n")]).bind
       (fun g => unpackRec .zeroFill .prodos g none) = .ok [(1, List.replicate 249 0x41 ++ [0x0a]), (2, strBytes "NEXT\n")] := by
   decide +kernel
+
+/-! ## Part 4: a file image can be re-used — packing forgets the previous contents
+
+`FileImage::desequence` starts by throwing the old chunk map away.  The laws below state that, for
+every packer and every kind, packing `B` into an image that already holds a packed `A` gives exactly
+the image that packing `B` into the original (empty) image gives — chunks, eof and metadata — so
+every round-trip theorem above also holds for a re-used `FileImage` object.  (For token files the
+language must be the same: ProDOS keeps the Applesoft load address in `aux`, which an Integer BASIC
+pack does not reset.) -/
+
+/-- **`desequence` is independent of the previous chunk map and eof value** -/
+theorem desequence_forgets (f : FImg) (y x : Bytes) : desequence (desequence f y) x = desequence f x :=
+  desequence_desequence f y x
+
+example : desequence (desequence (newFimg .dos 2 []) [1,2,3,4,5]) [] = desequence (newFimg .dos 2 []) [] := by decide
+example : (desequence (desequence (newFimg .prodos 2 []) [1,2,3,4,5]) [9]).chunks = [(0, [9])] := by decide
+
+/-- re-packing raw bytes -/
+theorem repack_raw (v : Variant) (fs : Fs) (f g : FImg) (x y : Bytes) (hw : f.eof.length = eofWidth fs)
+    (h : packRaw v fs f y = .ok g) : packRaw v fs g x = packRaw v fs f x := by
+  cases fs
+  · simp only [packRaw, dosPackRaw, Res.ok.injEq] at h ⊢
+    subst h
+    have key := repack_shape f y x [0] (desequence f y).aux (desequence f y).access (desequence f y).eof (desequence_eof_length f y)
+    simp only [desequence_aux, desequence_access] at key ⊢
+    rw [key]
+  · simp only [packRaw, prodosPackRaw] at h ⊢
+    by_cases hy : prodosTooLong v.prodosEof y.length
+    · rw [if_pos hy] at h; cases h
+    · rw [if_neg hy] at h
+      simp only [Res.ok.injEq] at h
+      subst h
+      have key := repack_shape f y x [4] (desequence f y).aux [prodosAccess] (desequence f y).eof (desequence_eof_length f y)
+      simp only [desequence_aux] at key ⊢
+      rw [key]
+  · simp only [packRaw, pascalPackRaw, Res.ok.injEq] at h ⊢
+    subst h
+    have key := repack_shape f y x [3,0] (desequence f y).aux (desequence f y).access (leBytes 4 (y.length % 2 ^ 32))
+      (by rw [leBytes_length, hw]; rfl)
+    simp only [desequence_aux, desequence_access] at key ⊢
+    rw [key]
+  · simp only [packRaw, plainPackRaw, Res.ok.injEq] at h ⊢
+    subst h
+    rw [desequence_desequence]
+  · simp only [packRaw, plainPackRaw, Res.ok.injEq] at h ⊢
+    subst h
+    rw [desequence_desequence]
+
+/-- re-packing binary data (any addresses, any junk tails) -/
+theorem repack_bin (v : Variant) (fs : Fs) (f g : FImg) (d t d' t' : Bytes) (a a' : Option Nat)
+    (h : packBin v fs f d a t = .ok g) : packBin v fs g d' a' t' = packBin v fs f d' a' t' := by
+  cases fs
+  · simp only [packBin] at h ⊢
+    have hX : ∀ X, ({ desequence g X with fsType := [4] } : FImg) = { desequence f X with fsType := [4] } := by
+      intro X
+      unfold dosPackBin at h
+      cases a with
+      | none => cases h
+      | some a0 =>
+        simp only [] at h
+        split at h
+        · cases h
+        · split at h
+          · cases h
+          · simp only [Res.ok.injEq] at h
+            subst h
+            have key := repack_shape f (u16le a0 ++ u16le d.length ++ d ++ t) X [4] (desequence f (u16le a0 ++ u16le d.length ++ d ++ t)).aux
+              (desequence f (u16le a0 ++ u16le d.length ++ d ++ t)).access (desequence f (u16le a0 ++ u16le d.length ++ d ++ t)).eof (desequence_eof_length f _)
+            simp only [desequence_aux, desequence_access] at key ⊢
+            rw [key]
+    unfold dosPackBin
+    simp only [hX]
+  · simp only [packBin] at h ⊢
+    have hX : ∀ X (b : Bytes), ({ desequence g X with fsType := [6], access := [prodosAccess], aux := b } : FImg)
+        = { desequence f X with fsType := [6], access := [prodosAccess], aux := b } := by
+      intro X b
+      unfold prodosPackBin at h
+      split at h
+      · cases h
+      · cases a with
+        | none => cases h
+        | some a0 =>
+          simp only [] at h
+          split at h
+          · cases h
+          · simp only [Res.ok.injEq] at h
+            subst h
+            have key := repack_shape f (d ++ t) X [6] (u16le a0) [prodosAccess] (desequence f (d ++ t)).eof (desequence_eof_length f _)
+            rw [key]
+    unfold prodosPackBin
+    simp only [hX]
+  · simp only [packBin, pascalPackBin, Res.ok.injEq] at h ⊢
+    subst h
+    have key := repack_shape f (d ++ t) (d' ++ t') [5,0] (desequence f (d ++ t)).aux (desequence f (d ++ t)).access
+      (desequence f (d ++ t)).eof (desequence_eof_length f _)
+    simp only [desequence_aux, desequence_access] at key ⊢
+    rw [key]
+  · simp only [packBin, plainPackBin, Res.ok.injEq] at h ⊢
+    subst h
+    rw [desequence_desequence]
+  · simp only [packBin, plainPackBin, Res.ok.injEq] at h ⊢
+    subst h
+    rw [desequence_desequence]
+
+/-- re-packing token streams of the same language -/
+theorem repack_tok (v : Variant) (fs : Fs) (f g : FImg) (d t d' t' : Bytes) (l : Lang)
+    (h : packTok v fs f d l t = .ok g) : packTok v fs g d' l t' = packTok v fs f d' l t' := by
+  cases fs
+  · simp only [packTok] at h ⊢
+    have hX : ∀ X (ty : Bytes), ({ desequence g X with fsType := ty } : FImg) = { desequence f X with fsType := ty } := by
+      intro X ty
+      unfold dosPackTok at h
+      split at h
+      · cases h
+      · cases l with
+        | other => cases h
+        | applesoft =>
+          simp only [Res.ok.injEq] at h
+          subst h
+          have key := repack_shape f (u16le d.length ++ (d ++ t)) X [2] (desequence f (u16le d.length ++ (d ++ t))).aux
+            (desequence f (u16le d.length ++ (d ++ t))).access (desequence f (u16le d.length ++ (d ++ t))).eof (desequence_eof_length f _)
+          simp only [desequence_aux, desequence_access] at key ⊢
+          rw [key]
+        | integer =>
+          simp only [Res.ok.injEq] at h
+          subst h
+          have key := repack_shape f (u16le d.length ++ (d ++ t)) X [1] (desequence f (u16le d.length ++ (d ++ t))).aux
+            (desequence f (u16le d.length ++ (d ++ t))).access (desequence f (u16le d.length ++ (d ++ t))).eof (desequence_eof_length f _)
+          simp only [desequence_aux, desequence_access] at key ⊢
+          rw [key]
+    unfold dosPackTok
+    simp only [hX]
+  · simp only [packTok] at h ⊢
+    unfold prodosPackTok at h ⊢
+    split at h
+    · cases h
+    · rename_i hlen
+      cases l with
+      | other => cases h
+      | integer =>
+        simp only [Res.ok.injEq] at h
+        subst h
+        have key := repack_shape f (d ++ t) (d' ++ t') [0xfa] (desequence f (d ++ t)).aux [prodosAccess]
+          (desequence f (d ++ t)).eof (desequence_eof_length f _)
+        simp only [desequence_aux] at key ⊢
+        rw [key]
+      | applesoft =>
+        simp only [] at h ⊢
+        cases hd : deduce v.deduce d with
+        | none => rw [hd] at h; cases h
+        | some a0 =>
+          rw [hd] at h
+          simp only [Res.ok.injEq] at h
+          subst h
+          have key := repack_shape f (d ++ t) (d' ++ t') [0xfc] (u16le a0) [prodosAccess]
+            (desequence f (d ++ t)).eof (desequence_eof_length f _)
+          rw [key]
+  · simp only [packTok] at h; cases h
+  · simp only [packTok] at h; cases h
+  · simp only [packTok] at h; cases h
+
+/-- re-packing text -/
+theorem repack_txt (v : Variant) (fs : Fs) (f g : FImg) (t t' : Bytes) (hw : f.eof.length = eofWidth fs)
+    (h : packTxt v fs f t = .ok g) : packTxt v fs g t' = packTxt v fs f t' := by
+  cases fs
+  · simp only [packTxt] at h ⊢
+    have hX : ∀ X, ({ desequence g X with fsType := [0] } : FImg) = { desequence f X with fsType := [0] } := by
+      intro X
+      unfold dosPackTxt at h
+      cases hd : dosFromUtf8 [0x8d] t with
+      | none => rw [hd] at h; cases h
+      | some dat =>
+        rw [hd] at h
+        simp only [Res.ok.injEq] at h
+        subst h
+        have key := repack_shape f (dat ++ [0]) X [0] (desequence f (dat ++ [0])).aux (desequence f (dat ++ [0])).access
+          (desequence f (dat ++ [0])).eof (desequence_eof_length f _)
+        simp only [desequence_aux, desequence_access] at key ⊢
+        rw [key]
+    unfold dosPackTxt
+    simp only [hX]
+  · simp only [packTxt] at h ⊢
+    have hX : ∀ X, ({ desequence g X with access := [prodosAccess], fsType := [4] } : FImg)
+        = { desequence f X with access := [prodosAccess], fsType := [4] } := by
+      intro X
+      unfold prodosPackTxt at h
+      cases hd : prodosFromUtf8 [0x0d] t with
+      | none => rw [hd] at h; cases h
+      | some dat =>
+        rw [hd] at h
+        simp only [] at h
+        split at h
+        · cases h
+        · simp only [Res.ok.injEq] at h
+          subst h
+          have key := repack_shape f dat X [4] (desequence f dat).aux [prodosAccess] (desequence f dat).eof (desequence_eof_length f _)
+          simp only [desequence_aux] at key ⊢
+          rw [key]
+    unfold prodosPackTxt
+    simp only [hX]
+  · simp only [packTxt] at h ⊢
+    have hX : ∀ X (e : Bytes), ({ desequence g X with fsType := [3, 0], eof := e } : FImg)
+        = { desequence f X with fsType := [3, 0], eof := e } := by
+      intro X e
+      unfold pascalPackTxt at h
+      cases hd : pasFromUtf8 [0x0d] t with
+      | panic => rw [hd] at h; cases h
+      | err => rw [hd] at h; cases h
+      | ok text =>
+        rw [hd] at h
+        simp only [Res.ok.injEq] at h
+        subst h
+        have key := repack_shape f (pasHeader ++ text) X [3, 0] (desequence f (pasHeader ++ text)).aux (desequence f (pasHeader ++ text)).access
+          (leBytes 4 (((pasHeader ++ text).length - 512 * (trailingZeros (pasHeader ++ text) / 512)) % 2 ^ 32))
+          (by rw [leBytes_length, hw]; rfl)
+        simp only [desequence_aux, desequence_access] at key ⊢
+        rw [key]
+    unfold pascalPackTxt
+    simp only [hX]
+  · simp only [packTxt] at h ⊢
+    unfold cpmPackTxt at h ⊢
+    cases hd : cpmFromUtf8 [] t with
+    | none => rw [hd] at h; cases h
+    | some dat =>
+      rw [hd] at h
+      simp only [Res.ok.injEq] at h
+      subst h
+      simp only [desequence_desequence]
+  · simp only [packTxt] at h ⊢
+    unfold fatPackTxt at h ⊢
+    cases hd : cpmFromUtf8 [] t with
+    | none => rw [hd] at h; cases h
+    | some dat =>
+      rw [hd] at h
+      simp only [Res.ok.injEq] at h
+      subst h
+      simp only [desequence_desequence]
+
+theorem updateFimg_clear_indep (L : Nat) (recs : List (Nat × Bytes)) (f : FImg) (cs : List (Nat × Bytes)) (e : Bytes)
+    (he : e.length = f.eof.length) (rf : Bool) (conv : Bytes → Option Bytes) :
+    updateFimg L recs { f with chunks := cs, eof := e } rf conv true = updateFimg L recs f rf conv true := by
+  unfold updateFimg
+  simp only [he, if_true]
+
+/-- re-packing random-access records (`update_fimg` is called with `clear = true`) -/
+theorem repack_rec (fs : Fs) (f g : FImg) (L L' : Nat) (recs recs' : List (Nat × Bytes))
+    (h : packRec fs f L recs = .ok g) : packRec fs g L' recs' = packRec fs f L' recs' := by
+  cases fs
+  · simp only [packRec] at h ⊢
+    unfold updateFimg at h
+    split at h
+    · cases h
+    · split at h
+      · cases h
+      · simp only [if_true] at h
+        split at h
+        · cases h
+        · rename_i cs eof _
+          simp only [Res.ok.injEq] at h
+          subst h
+          exact updateFimg_clear_indep L' recs' { f with fsType := [0] } cs _ (by simp [fixLe, leBytes_length]) false _
+  · simp only [packRec] at h ⊢
+    split at h
+    · cases h
+    · unfold updateFimg at h
+      split at h
+      · cases h
+      · split at h
+        · cases h
+        · simp only [if_true] at h
+          split at h
+          · cases h
+          · rename_i cs eof _
+            simp only [Res.ok.injEq] at h
+            subst h
+            split
+            · rfl
+            · exact updateFimg_clear_indep L' recs' { f with fsType := [4], aux := u16le L', access := [prodosAccess] } cs _
+                (by simp [fixLe, leBytes_length]) true _
+  · simp only [packRec] at h; cases h
+  · simp only [packRec] at h; cases h
+  · simp only [packRec] at h; cases h
 
 end A2Verif.C13
